@@ -6,8 +6,8 @@ use crate::assembly::{Instr, Label, Line, LineVariant, Reg, remove_labels_and_co
 #[cfg(feature = "ffi")]
 use crate::ast::ForeignCallPolicy;
 use crate::ast::{
-    ArgMaybeAnnotated, AssignOperator, AstNode, BinaryOperator, FuncDecl, FuncDef, Identifier,
-    InterfaceDef, ItemKind, PatStructFields, PatVariantData, StructDef,
+    ArgMaybeAnnotated, AssignOperator, AstNode, BinaryOperator, FuncCallArg, FuncDecl, FuncDef,
+    Identifier, InterfaceDef, ItemKind, PatStructFields, PatVariantData, StructDef,
 };
 use crate::ast::{FileAst, NodeId};
 use crate::environment::Environment;
@@ -3112,6 +3112,15 @@ impl Translator {
         }
     }
 
+    // The argument expressions a call evaluates: the ones written at the call site, in
+    // parameter order, plus the default values the checker filled in for omitted arguments.
+    fn call_arg_exprs(&self, call: &Expr, args: &[FuncCallArg]) -> Vec<Rc<Expr>> {
+        match self.statics.function_call_arg_order.get(&call.id) {
+            Some(reordered_args) => reordered_args.clone(),
+            None => args.iter().map(|arg| arg.val.clone()).collect(),
+        }
+    }
+
     fn collect_locals_expr(&self, expr: &Expr, locals: &mut HashSet<AstNode>, mono: &MonomorphEnv) {
         match &*expr.kind {
             ExprKind::Block(statements) => {
@@ -3165,8 +3174,8 @@ impl Translator {
             }
             ExprKind::FuncCall(func, args) => {
                 self.collect_locals_expr(func, locals, mono);
-                for arg in args {
-                    self.collect_locals_expr(&arg.val, locals, mono);
+                for arg in self.call_arg_exprs(expr, args) {
+                    self.collect_locals_expr(&arg, locals, mono);
                 }
             }
 
@@ -3410,8 +3419,8 @@ impl Translator {
             }
             ExprKind::FuncCall(func, args) => {
                 self.collect_captures_expr(func, captures, mono);
-                for arg in args {
-                    self.collect_captures_expr(&arg.val, captures, mono);
+                for arg in self.call_arg_exprs(expr, args) {
+                    self.collect_captures_expr(&arg, captures, mono);
                 }
             }
             ExprKind::AnonymousFunction(args, _, body) => {
